@@ -41,6 +41,55 @@ class Contract:
         return ps or self.props
 
 
+REC_DEFS = {}
+
+
+def unfold_rec_apps(terms, depth=2):
+    """Ground instances of the definitional equations of recursive spec functions occurring in `terms`
+    (closed applications only), unfolded `depth` times."""
+    facts, done = [], set()
+    cur = list(terms)
+    for _ in range(depth):
+        new = []
+        seen, todo = set(), list(cur)
+        while todo:
+            t = todo.pop()
+            if t.get_id() in seen:
+                continue
+            seen.add(t.get_id())
+            if z3.is_quantifier(t):
+                todo.append(t.body())
+                continue
+            if z3.is_app(t):
+                nm = t.decl().name()
+                if nm in REC_DEFS and t.get_id() not in done and not _has_bound_var(t):
+                    done.add(t.get_id())
+                    rs = REC_DEFS[nm]
+                    inst = z3.substitute(rs.def_body, *[(p, a) for p, a in zip(rs.def_params, t.children())])
+                    new.append(t == inst)
+                todo.extend(t.children())
+        if not new:
+            break
+        facts += new
+        cur = new
+    return facts
+
+
+def _has_bound_var(t):
+    todo, seen = [t], set()
+    while todo:
+        x = todo.pop()
+        if x.get_id() in seen:
+            continue
+        seen.add(x.get_id())
+        if z3.is_var(x):
+            return True
+        if z3.is_quantifier(x):
+            continue
+        todo.extend(x.children())
+    return False
+
+
 class RecSpec:
     """Recursive specification function.  Heap components read by the body become extra parameters."""
 
@@ -63,7 +112,7 @@ class RecSpec:
         for attempt in range(3):
             self.heap_keys = list(keys)
             sig = [kind_sort(self.arg_kinds[p]) for p in params] + [Heap().get(k).sort() for k in self.heap_keys]
-            f = z3.RecFunction(f"spec_{self.name}" + ("" if attempt == 0 else f"_{attempt}"), *sig, kind_sort(self.ret_kind))
+            f = z3.Function(f"spec_{self.name}" + ("" if attempt == 0 else f"_{attempt}"), *sig, kind_sort(self.ret_kind))
             self.func = f
             st = State()
             st.spec = True
@@ -93,7 +142,11 @@ class RecSpec:
             touched = [kx for kx in st.heap.comps if kx not in self.heap_keys]
             if not touched:
                 val = holder["v"]
-                z3.RecAddDefinition(f, pterms + [hvars[kx] for kx in self.heap_keys], eng.coerce(st, val, self.ret_kind))
+                # definitional equation f(params) == body: instantiated at ground applications by the
+                # query builder (bounded unfolding, like fuel), never asserted as a quantified axiom
+                self.def_params = pterms + [hvars[kx] for kx in self.heap_keys]
+                self.def_body = eng.coerce(st, val, self.ret_kind)
+                REC_DEFS[f.name()] = self
                 return
             keys = self.heap_keys + touched
         raise EngineError(f"spec function {self.name}: heap footprint did not stabilise")
@@ -168,6 +221,8 @@ class ContractMixin:
         outs = self.ev(node, s, fr2, lambda s2, v: holder.update(v=v) or [])
         if "v" not in holder:
             raise EngineError(f"specification expression has no value: {text}")
+        if not s.alloc.eq(st.alloc) or any(not t.eq(st.heap.comps[kx]) for kx, t in s.heap.comps.items() if kx in st.heap.comps):
+            raise EngineError(f"specification expression allocates or writes the heap: {text if isinstance(text, str) else ast.unparse(text)}")
         # lazily created initial heap symbols must be visible to the caller's heap
         for kx, t in s.heap.comps.items():
             if kx not in st.heap.comps:
@@ -280,6 +335,8 @@ class ContractMixin:
 
     def check_normal_exit(self, fi, c, fr, s, payload):
         from .symex import EngineError
+        # in postconditions parameter names denote the values passed in (the heap is the exit heap)
+        s.frames = [dict(self._entry_env)]
         extra = {"result": payload}
         if "result" in c.sorts:
             want = c.sorts["result"]
@@ -307,6 +364,7 @@ class ContractMixin:
 
     def check_exceptional_exit(self, fi, c, fr, s, exc):
         from .symex import EngineError
+        s.frames = [dict(self._entry_env)]
         allowed = [e for e in c.raises if self.is_subclass(exc.cls, e)]
         if not allowed:
             self.oblige(s, "raises", f"no-{exc.cls}", z3.BoolVal(False), f"{exc.cls} escapes; the contract allows {sorted(c.raises) or 'no exception'}",
@@ -446,6 +504,8 @@ class ContractMixin:
             return SRef(v.t, want)
         if isinstance(v, SRef) and want.startswith("optref:"):
             return SOptRef(v.t, want[7:])
+        if isinstance(v, SOptRef) and want.startswith(("ref:", "list:", "dict:")):
+            return from_sort(want, self.coerce(st, v, want))
         if isinstance(v, SNone) and want.startswith("optref:"):
             return SOptRef(z3.IntVal(0), want[7:])
         if isinstance(v, SNone) and want == "match":
